@@ -76,6 +76,7 @@ fn program(u: &mut Unstructured) -> arbitrary::Result<Program> {
 }
 
 fuzz_target!(|data: &[u8]| {
+    common::quiet_panics();
     let mut u = Unstructured::new(data);
     let Ok(p) = program(&mut u) else { return };
     let mut obs = pv::runner::scratch_obs();
